@@ -950,6 +950,21 @@ def make_case(pid, rng, tier, i):
 
 
 def run_one(pid, res, case, tier):
+    """One case under the box-nesting sanitizer (tracers must never reach raw NumPy as object arrays or
+    inside raw containers, and a box may only wrap a box of a strictly smaller trace)."""
+    probs = getattr(PROBES, "box_problems", None)
+    n0 = len(probs) if probs is not None else 0
+    try:
+        return _run_one(pid, res, case, tier)
+    finally:
+        if probs is not None and len(probs) > n0:
+            kind, detail = probs[n0]
+            _viol(res, {"engine": "graph", "family": case["kind"], "sanitizer": kind}, "sanitizer:" + kind, case, "%s (%d reports in this case)" % (detail, len(probs) - n0))
+            del probs[n0:]
+        res["counters"]["boxes_checked"] = getattr(PROBES, "boxes_checked", 0)
+
+
+def _run_one(pid, res, case, tier):
     k = case["kind"]
     if k == "program":
         return c03_case(res, case, tier)
@@ -973,6 +988,7 @@ def run_one(pid, res, case, tier):
 def run_shard(pid, tier, seed, idx, n):
     common.setup_repo()
     PROBES.install()
+    PROBES.install_box_sanitizer()
     res = _new_result()
     res["info"]["probes"] = dict(PROBES.attached)
     total = N[pid][tier]
@@ -1012,6 +1028,7 @@ def run_shard(pid, tier, seed, idx, n):
 def replay(pid, case):
     common.setup_repo()
     PROBES.install()
+    PROBES.install_box_sanitizer()
     res = _new_result()
     res["evaluations"] = 1
     run_one(pid, res, case, "thorough")
